@@ -771,3 +771,18 @@ def media_type_pred(eng, c, a, g):
     m = deref_val(eng, a[0]); names = eng.mir.enums['MediaType']
     return OR(*[EQ(m.tag, BV(names.index(n), 8)) for n in _MT_SETS[c.split('::')[-1]]])
 MODELS_NORM = [(re.compile(r'MediaType::(is_typed|is_declaration|is_emittable|is_jsx)'), media_type_pred)] + MODELS_NORM
+
+def slice_last(eng, c, a, g):
+    items = []
+    for cnd, pl, sq in containers(eng, a[0]):
+        if not isinstance(sq, SeqV): raise Unsupported(f'slice::last on {sq!r}')
+        later = FALSE
+        for k in range(len(sq.items) - 1, -1, -1):
+            gk, v = sq.items[k]
+            items.append((AND(cnd, gk, NOT(later)), Ptr([(TRUE, (Root(v, 'slice-elem'), ()))])))
+            later = OR(later, gk)
+    some = OR(*[c_ for c_, _ in items])
+    val = None
+    for c_, p_ in items: val = p_ if val is None else ite(c_, p_, val)
+    return opt(some, val)
+MODELS_NORM = [(re.compile(r'<impl \[.*\]>::last'), slice_last), (re.compile(r'<str as ToString>::to_string'), deref_identity)] + MODELS_NORM
